@@ -32,6 +32,10 @@ NameOK(e) == Valid(e.f.name) /\ ~IsRootPath(e.f.name)
 \* the same location produced twice (insertion points excepted)
 Duplicate == \E i, j \in 1..Len(All) : i < j /\ ~All[i].f.insertion /\ ~All[j].f.insertion
                 /\ NameOK(All[i]) /\ NameOK(All[j]) /\ Loc(All[i]) = Loc(All[j])
+\* Named deviation of the end-to-end path: the plugin protocol layer (protoplugin, lenient mode) drops a name that
+\* one plugin returns twice, with a warning, before the responses of the plugins are compared; the library-level
+\* ValidatePluginResponses rejects it.  End-to-end cases with such a response are not replayed through the CLI.
+SamePluginDuplicate == \E i, j \in 1..Len(files1) : i < j /\ NameOK(All[i]) /\ NameOK(All[j]) /\ Loc(All[i]) = Loc(All[j])
 \* an insertion point must name a file produced earlier, into the same output location
 InsertionOK(j) == \E i \in 1..(j - 1) : ~All[i].f.insertion /\ NameOK(All[i]) /\ OutLoc(All[i]) = OutLoc(All[j]) /\ Loc(All[i]) = Loc(All[j])
 BadInsertion == \E j \in 1..Len(All) : All[j].f.insertion /\ (~NameOK(All[j]) \/ ~InsertionOK(j))
@@ -46,5 +50,5 @@ NothingOnFailure == Failed => Written = {}
 SpellingsAgree == CleanComps(<<"gen">>) = CleanComps(<<".", "gen", "">>)
 
 EmitCase == Emit => PrintT(<<"CASE", ToJson([out1 |-> out1, files1 |-> files1, out2 |-> out2, files2 |-> files2,
-   failed |-> Failed, duplicate |-> Duplicate, badName |-> BadName, badInsertion |-> BadInsertion, written |-> Written])>>)
+   failed |-> Failed, duplicate |-> Duplicate, samePluginDuplicate |-> SamePluginDuplicate, badName |-> BadName, badInsertion |-> BadInsertion, written |-> Written])>>)
 =============================================================================
